@@ -284,15 +284,15 @@ func c07batch(c c07bcfg) func(x *vsched.Exec) {
 
 func TestVerif_C07(t *testing.T) {
 	vrun.Main(t, "C07", func(r *vrun.Run) {
-		r.Rule = "full product of client TTL {50ms,100ms,1h} x server PTTL {none,1,49,50,51,100,150,missing key} x static-TTL flag x reply latency {0,10ms,60ms} x API {DoCache, DoMultiCache, MGET, adapter store} x second read at expiry-1ms / expiry / expiry+1ms on the virtual clock; one deterministic execution per case; plus DoMultiCache batches of 3 keys (+ optional duplicate) x every subset already cached x every assignment of {100ms,10s} client TTLs to the positions x server PTTL {none,60ms,5s} x {LRU, adapter}, each position checked against its own TTL and probed at expiry-1ms / expiry; oracle: CachePXAT = min(start+ttl, arrival+pttl unless static), hit iff now < expiry; non-trivial = server PTTL shorter than client TTL"
+		r.Rule = "full product of client TTL {50ms,100ms,1h; thorough adds 1ms,2ms,1s} x server PTTL {none,1,49,50,51,100,150,missing key; thorough adds 2,99,101,1000,3600001} x static-TTL flag x reply latency {0,10ms,60ms; thorough adds 1ms,49ms,200ms} x API {DoCache, DoMultiCache, MGET, adapter store} x second read at expiry-1ms / expiry / expiry+1ms (thorough also +-2ms) on the virtual clock; one deterministic execution per case; plus DoMultiCache batches of 3 keys (+ optional duplicate) x every subset already cached x every assignment of {100ms,10s} client TTLs to the positions x server PTTL {none,60ms,5s} x {LRU, adapter}, each position checked against its own TTL and probed at expiry-1ms / expiry; oracle: CachePXAT = min(start+ttl, arrival+pttl unless static), hit iff now < expiry; non-trivial = server PTTL shorter than client TTL"
 		ms := time.Millisecond
 		n := 0
 		for _, api := range []string{"get", "multi", "mget", "adapter"} {
-			for _, ttl := range []time.Duration{50 * ms, 100 * ms, time.Hour} {
-				for _, pttl := range []int64{-1, 1, 49, 50, 51, 100, 150, -2} {
+			for _, ttl := range vrun.Pick(r, []time.Duration{50 * ms, 100 * ms, time.Hour}, []time.Duration{ms, 2 * ms, 50 * ms, 100 * ms, time.Second, time.Hour}) {
+				for _, pttl := range vrun.Pick(r, []int64{-1, 1, 49, 50, 51, 100, 150, -2}, []int64{-1, 1, 2, 49, 50, 51, 99, 100, 101, 150, 1000, 3600001, -2}) {
 					for _, static := range []bool{false, true} {
-						for _, lat := range []time.Duration{0, 10 * ms, 60 * ms} {
-							for _, probe := range []time.Duration{-ms, 0, ms} {
+						for _, lat := range vrun.Pick(r, []time.Duration{0, 10 * ms, 60 * ms}, []time.Duration{0, ms, 10 * ms, 49 * ms, 60 * ms, 200 * ms}) {
+							for _, probe := range vrun.Pick(r, []time.Duration{-ms, 0, ms}, []time.Duration{-2 * ms, -ms, 0, ms, 2 * ms}) {
 								n++
 								if !r.Mine(n) {
 									continue
